@@ -103,9 +103,9 @@ var countOnly = os.Getenv("C19_COUNT_ONLY") != ""
 
 type localStats struct {
 	evals, configs, valid, invalid, notApplicable, dups int64
-	outcomes                                           map[string]struct{}
-	byFamily                                           map[string]int64
-	bySize                                             [5]int64
+	outcomes                                            map[string]struct{}
+	byFamily                                            map[string]int64
+	bySize                                              [5]int64
 }
 
 // exploreSchema runs every configuration × rewrite of one schema.
@@ -197,7 +197,7 @@ func exploreConfig(si, ci int, s *Schema, cfg *Config, lim Limits, col *collecto
 		mm := Compare(s, orig, d, rr.SkipGohclValue)
 		if len(mm) == 0 {
 			st.outcomes[fam+"|"+cls+"|same"] = struct{}{}
-			if r.WantSample() && (ri%7 == 3) {
+			if len(s.Items) >= 2 && len(cfg.Body) >= 2 && ri%97 == 3 && r.WantSample() {
 				r.Sample(map[string]any{"schema": s.Codes(), "rewrite": rw.String(), "class": cls, "original": origR.Files, "files": rr.Files})
 			}
 			return
@@ -344,7 +344,7 @@ func Run(r *ev.Run) {
 	r.Bounds["split_files"] = map[bool]int{false: 2, true: 3}[thorough]
 	r.Bounds["deadline_s"] = int(deadline.Seconds())
 	r.Assume(
-		"decoding uses an empty, non-nil hcl.EvalContext: the JSON syntax treats strings as templates only in full-expression mode, which the implementation selects by a non-nil context",
+		"decoding uses an empty, non-nil hcl.EvalContext: the JSON syntax treats strings as templates only in full-expression mode, which the implementation selects by a non-nil context; the literal-only JSON rewrite decodes original and rewrite with a nil context",
 		"configurations with a fault the JSON syntax cannot express (attribute written as block, extra or missing block label) are not rewritten to JSON",
 		"values are compared only when both sides are error-free; with errors only has-error is compared",
 		"gohcl decodes every repeated block type into a slice, so after a reordering of an order-free type (set/map/object in hcldec) only has-error is compared for gohcl",
@@ -365,7 +365,6 @@ func Run(r *ev.Run) {
 	var stop int32
 	var next int64 = -1
 	var done int64
-	start := time.Now()
 	stats := make([]*localStats, workers)
 	var wg sync.WaitGroup
 	// Schemas are handed out in a fixed stride order, so that a run cut by the deadline
@@ -412,7 +411,6 @@ func Run(r *ev.Run) {
 		<-finished
 		r.NotExhaustive(fmt.Sprintf("internal deadline of %v reached after %d of %d schemas", deadline, atomic.LoadInt64(&done), len(plans)))
 	}
-	_ = start
 
 	var tot localStats
 	tot.byFamily = map[string]int64{}
